@@ -1,0 +1,14 @@
+//go:build verif
+// +build verif
+
+package nsqd
+
+// VerifCrashPoint, when set by the verification harness, is called after each
+// file-system mutation of the disk queue with a label naming the mutation.
+var VerifCrashPoint func(point string)
+
+func verifCrashPoint(p string) {
+	if VerifCrashPoint != nil {
+		VerifCrashPoint(p)
+	}
+}
